@@ -1,35 +1,23 @@
 import DoltVerif.Props.C09
 /-!
-C09 — refuting witness for the FULL statements on the *current* source tree (known finding
-`walk-missing:*`, DESIGN.md §11 d).  This module is expected to stop compiling when the walker is
-repaired (design/C09-fix.patch); it is then removed from checks/C09.json together with the
-`knownMissing` entries.
+C09 — refuting witness for the one statement that is still only partial on the *current* source
+tree: tuple encodings (known finding `walk-missing:ProllyTreeNode.value_items[ExtendedAddrEnc]`).
+`val.IsAddrEncoding` lists `ExtendedAddrEnc`, `val.IterAddressFields` does not, so
+`writeAddressOffsets` never records such a field and `walkProllyMapAddresses` never reports it.
+(The repair changes serialized node bytes for Doltgres and was not applied.)  This module stops
+compiling when the iterator is repaired; it is then removed from checks/C09.json.
 -/
 namespace DoltVerif.C09.Witness
 open DoltVerif DoltVerif.Walk DoltVerif.C09
 
-/-- `doltdb.newWorkingSet` reads `rebase_state.onto_commit_addr`; the walker does not report it. -/
-theorem walk_covers_loads_full_refuted : ¬ walk_covers_loads_full :=
-  missing_refutes_full ("RebaseState", "onto_commit_addr") (by decide +kernel)
+theorem leaf_encodings_full_refuted : ¬ leaf_encodings_covered_full := by
+  intro h
+  exact absurd (h "ExtendedAddrEnc" (by decide +kernel)) (by decide +kernel)
 
-/-- exactly these loaded fields are missing from the walker (nothing else) -/
-theorem missing_exactly :
-    (missing walked loads).eraseDups = [("MergeState", "pre_merge_head_commit_addr"),
-      ("RebaseState", "onto_commit_addr"), ("RebaseState", "pre_working_root_addr")] := by
+/-- exactly this encoding is missing (nothing else) -/
+theorem missing_encodings_exactly :
+    (Gen.Walk.isAddrEncs ++ Gen.Walk.isAdaptiveEncs).filter
+      (fun e => !(Gen.Walk.iterAddressEncs ++ Gen.Walk.iterAdaptiveEncs).contains e) = ["ExtendedAddrEnc"] := by
   decide +kernel
-
-theorem walk_covers_address_fields_full_refuted : ¬ walk_covers_address_fields_full := by
-  intro h
-  exact absurd (h ("RebaseState", "onto_commit_addr") (by decide +kernel)) (by decide +kernel)
-
-/-- object-level witness: a working set in the middle of a rebase.  Loading it reads address 7
-(the onto-commit); the walker reports only the working and staged roots. -/
-def rebasingWs : Obj := ⟨[(("WorkingSet", "working_root_addr"), [1]), (("WorkingSet", "staged_root_addr"), [2]),
-  (("RebaseState", "pre_working_root_addr"), [6]), (("RebaseState", "onto_commit_addr"), [7])]⟩
-
-theorem obj_level_full_refuted :
-    ¬ (∀ (o : Obj) (a : Addr), a ∈ loadReads loads o → a ∈ walk walked o) := by
-  intro h
-  exact absurd (h rebasingWs 7 (by decide +kernel)) (by decide +kernel)
 
 end DoltVerif.C09.Witness
